@@ -44,6 +44,12 @@ const ATOMS: &[(&str, &str)] = &[
     ("mixed-array-literal", "[1, \"a\"]"),
     ("mixed-matrix", "MM"),
     // blocks over constants: a number for the checker, but not a primitive the transformer can evaluate
+    // binary operations between constants of different kinds
+    ("bool-and-number", "(true and 1)"),
+    ("number-or-bool", "(1 or true)"),
+    ("bool-plus-number", "(true + 1)"),
+    ("string-plus-number", "(\"a\" + 1)"),
+    ("not-number", "(not 2)"),
     ("constant-block", "max { 1, 2 }"),
     ("constant-scoped-block", "sum(q in 0..2) { q }"),
 ];
@@ -264,6 +270,17 @@ pub fn programs_for_totality() -> Vec<(String, String)> {
     for (name, call) in ARITY.iter() {
         out.push((format!("arity:{name}"), program("min x", &format!("x >= {call}"), "")));
     }
+    // literal indexes of compound names and of row names at and beyond the integer widths
+    for idx in ["2147483648", "4294967296", "9223372036854775807", "9223372036854775808", "18446744073709551615", "18446744073709551616", "99999999999999999999999", "340282366920938463463374607431768211456", "007", "0"] {
+        out.push((format!("compound-index-extreme:{idx}"), program(&format!("min y_{idx} + x"), "x >= 0", "")));
+        out.push((format!("row-name-index-extreme:{idx}"), program("min x", &format!("cap_{idx}: x >= 0"), "")));
+        out.push((format!("array-index-extreme:{idx}"), program("min x", &format!("x >= A[{idx}]"), "")));
+        out.push((format!("declared-index-extreme:{idx}"), program("min x", "x >= 0", &format!("    w_{idx} as Boolean\n"))));
+        out.push((format!("constant-arithmetic-extreme:{idx}"), program("min x", "x >= 0", &format!("LET kk = 0 - (0 - {idx} - 1)\n"))));
+        out.push((format!("constant-negation-extreme:{idx}"), program("min x", "x >= 0", &format!("LET kk = -(0 - {idx} - 1)\n"))));
+        out.push((format!("constant-negation-in-row-extreme:{idx}"), program("min x", &format!("x >= -(0 - {idx} - 1) - {idx}"), "")));
+        out.push((format!("constant-product-extreme:{idx}"), program("min x", "x >= 0", &format!("LET kk = {idx} * {idx}\n"))));
+    }
     out
 }
 
@@ -333,6 +350,7 @@ fn atom_class(atom: &str) -> String {
             "nodes-call" => "node-iterable",
             "undeclared" | "undeclared-compound" => "undeclared",
             "constant-block" | "constant-scoped-block" => "block-over-constants",
+            "bool-and-number" | "number-or-bool" | "bool-plus-number" | "string-plus-number" | "not-number" => "mixed-kind-operation",
             other => other,
         })
         .collect::<Vec<_>>()
@@ -416,7 +434,7 @@ fn check_program(src: &str, template: &str, atoms: &str, l: &mut Local) {
 pub fn run(mut run: Run) -> ! {
     crate::core::silence_panics();
     let quick = run.quick();
-    run.rule = format!("every (template x atom) program: {} single-hole templates covering every operand, block, scoped-block body, iterator, range end, destructuring, index, function-argument, declaration-bound, declaration-iterator, constraint-iterator, constraint-name and constant position x 35 typed atoms (numbers, booleans, strings, arrays of every element kind, graph, constants, calls, domain variables, undeclared names, blocks over constants); 8 scoped templates x (35 + 6 scoped atoms: node, edge, tuple, iterator, element, shadowed constant); the single-hole templates again wrapped in an iteration scope x 10 iteration-only atoms (node, edge, edge endpoint, edge weight, enumerate tuple, string element, boolean element, matrix row, range variable, array element); 22 wrong-arity calls; 12 two-hole templates x all atom pairs; 14 scoping shapes (every scoped block kind, constraint and declaration iterations, nested scopes) x 17 iterator expressions that mention the variable of a later set, of their own set, of an earlier set or of no set; thorough: the two-hole templates inside the iteration scope x all pairs of the 40 plain and iteration-only atoms; distinct = accepted program texts; non-trivial = accepted by the type checker", TEMPLATES.len());
+    run.rule = format!("every (template x atom) program: {} single-hole templates covering every operand, block, scoped-block body, iterator, range end, destructuring, index, function-argument, declaration-bound, declaration-iterator, constraint-iterator, constraint-name and constant position x 40 typed atoms (incl. operations between constants of different kinds) (numbers, booleans, strings, arrays of every element kind, graph, constants, calls, domain variables, undeclared names, blocks over constants); 8 scoped templates x (40 + 6 scoped atoms: node, edge, tuple, iterator, element, shadowed constant); the single-hole templates again wrapped in an iteration scope x 10 iteration-only atoms (node, edge, edge endpoint, edge weight, enumerate tuple, string element, boolean element, matrix row, range variable, array element); 22 wrong-arity calls; 12 two-hole templates x all atom pairs; 14 scoping shapes (every scoped block kind, constraint and declaration iterations, nested scopes) x 17 iterator expressions that mention the variable of a later set, of their own set, of an earlier set or of no set; thorough: the two-hole templates inside the iteration scope x all pairs of the 40 plain and iteration-only atoms; distinct = accepted program texts; non-trivial = accepted by the type checker", TEMPLATES.len());
     run.assume("type-class error kinds: UndeclaredVariable, WrongArgument, WrongExpectedArgument, WrongFunctionSignature, WrongNumberOfArguments, NonExistentFunction, Unspreadable, SpreadError, UnOpError, BinOpError unless both operands are numeric kinds (division by zero / overflow), Other(domain variable used as a value), Other(block arity)");
     run.family("T1-single-hole", (TEMPLATES.len() * ATOMS.len()) as u64, |i, l| {
         let (tname, obj, cons, extra) = TEMPLATES[i as usize / ATOMS.len()];
